@@ -57,13 +57,15 @@ Qed.
 (** * Safety: a covered client never raises an error against a conformant peer *)
 
 Definition static_ok (e : env) : Prop :=
-  dgram_cap (e_adv e) <= l_dgram (e_enf e) /\ 0 < l_idle (e_adv e) /\ l_idle (e_adv e) <= l_idle (e_enf e).
+  (forall k, lim_of (e_adv e) k <= lim_of (e_enf e) k) /\
+  dgram_cap (e_adv e) <= l_dgram (e_enf e) /\
+  (if adv_idle_fin (l_idle (e_adv e)) then l_idle (e_adv e) <= l_idle (e_enf e) else noIdleNs <= l_idle (e_enf e)).
 
 Lemma step_safe e s x :
   inv s -> static_ok e -> peer_ok e s x = true ->
   exists s', client_step e s x = (s', None) /\ inv s'.
 Proof.
-  intros I (Hd & Hi0 & Hi) P. destruct x as [ty n | ty n | n | k | len | k w | | d pidle pto3]; simpl in P |- *.
+  intros I (Hl & Hd & Hi) P. destruct x as [ty n | ty n | n | k | ty m n | len | k w | | d pidle pto3]; simpl in P |- *.
   - (* EvData *)
     apply andb_prop in P as [P Pc]. apply andb_prop in P as [P Ps]. apply andb_prop in P as [Pn Po].
     assert (Ho : (ty =? 0) || fits_client s (cnt_kind ty) (implicit_open s ty) = true).
@@ -90,6 +92,13 @@ Proof.
   - (* EvCIDRotate *)
     apply andb_prop in P as [_ P]. rewrite (fits_peer_client _ _ _ I P). simpl.
     eexists. split; [reflexivity|]. apply inv_bump. exact I.
+  - (* EvFresh *)
+    apply andb_prop in P as [P Pc]. apply andb_prop in P as [P Pn]. apply andb_prop in P as [P Ps].
+    rewrite (fits_peer_client _ _ _ I Ps). cbn [negb].
+    apply Z.leb_le in Pn. specialize (Hl (sd_kind (if ty =? 1 then 1 else 2))).
+    destruct (Z.ltb_spec (lim_of (e_enf e) (sd_kind (if ty =? 1 then 1 else 2))) n); [lia|].
+    rewrite (fits_peer_client _ _ _ I Pc). cbn [negb].
+    eexists. split; [reflexivity|]. apply inv_bump, inv_bump. exact I.
   - (* EvDgram *)
     apply andb_prop in P as [P1 P2]. apply Z.leb_le in P1, P2.
     destruct (Z.eqb_spec (l_dgram (e_enf e)) 0) as [E|E]; [lia|].
@@ -100,15 +109,18 @@ Proof.
   - (* EvRetireCID *)
     eexists. split; [reflexivity|]. destruct (1 <? used (s KCID)); [apply inv_bump|]; exact I.
   - (* EvSilence *)
-    apply andb_prop in P as [P Pv]. apply andb_prop in P as [P P3]. apply andb_prop in P as [P1 P2].
-    apply Z.leb_le in P1, P2, P3.
+    apply andb_prop in P as [P Pv]. apply andb_prop in P as [P P3]. apply andb_prop in P as [P P2].
+    apply andb_prop in P as [P1 Pb].
+    apply Z.leb_le in P1, P2, P3. apply Z.ltb_lt in Pb.
     unfold peer_idle_view in Pv. unfold idle_deadline, client_idle.
-    destruct (Z.ltb_spec 0 (l_idle (e_adv e))); [|lia].
-    destruct (Z.ltb_spec 0 pidle); apply Z.ltb_lt in Pv.
-    + destruct (Z.leb_spec (Z.max (Z.min (l_idle (e_enf e)) pidle) pto3) d); [lia|].
-      eexists. split; [reflexivity | exact I].
-    + destruct (Z.leb_spec (Z.max (l_idle (e_enf e)) pto3) d); [lia|].
-      eexists. split; [reflexivity | exact I].
+    unfold adv_idle_fin in Hi.
+    assert (G : d < (if 0 <? pidle then Z.min (l_idle (e_enf e)) pidle else l_idle (e_enf e))).
+    { destruct (Z.ltb_spec 0 (l_idle (e_adv e))) as [A|A]; cbn [andb] in Hi.
+      - destruct (Z.ltb_spec (l_idle (e_adv e)) noIdleNs);
+          destruct (Z.ltb_spec 0 pidle); apply Z.ltb_lt in Pv; lia.
+      - destruct (Z.ltb_spec 0 pidle); [apply Z.ltb_lt in Pv|]; lia. }
+    destruct (Z.leb_spec (Z.max (if 0 <? pidle then Z.min (l_idle (e_enf e)) pidle else l_idle (e_enf e)) pto3) d); [lia|].
+    eexists. split; [reflexivity | exact I].
 Qed.
 
 Lemma run_safe e : static_ok e -> forall h s, inv s -> forall c, run e s h <> Err c.
@@ -121,7 +133,7 @@ Qed.
 Lemma covers_safe adv enf : covers adv enf -> forall h c, play adv enf h <> Err c.
 Proof.
   intros C h c. unfold play. apply run_safe.
-  - unfold static_ok. simpl. unfold covers in C. tauto.
+  - unfold static_ok. simpl. split; [apply covers_counters, C|]. unfold covers in C. tauto.
   - apply inv_init, covers_counters, C.
 Qed.
 
@@ -184,7 +196,7 @@ Proof.
   rewrite Z.gtb_ltb. rewrite (proj2 (Z.ltb_lt _ _) H). eexists; reflexivity.
 Qed.
 
-Lemma wit_idle adv enf : 0 < l_idle enf -> (l_idle adv <= 0 \/ l_idle enf < l_idle adv) ->
+Lemma wit_idle adv enf : 0 < l_idle enf < noIdleNs -> (l_idle adv <= 0 \/ l_idle enf < l_idle adv) ->
   play adv enf [EvSilence (l_idle enf) 0 0] = Err IdleTimeout.
 Proof.
   intros H0 H. unfold play. cbn [run]. unfold peer_ok, client_step, peer_idle_view, idle_deadline, client_idle.
@@ -208,8 +220,12 @@ Proof.
   - destruct (Z_le_gt_dec (l_cid adv) (l_cid enf)); [assumption|]. exfalso. eapply N, wit_cid; lia.
   - destruct (Z_le_gt_dec (dgram_cap adv) (l_dgram enf)); [assumption|]. exfalso.
     destruct (wit_dgram adv enf S8) as [c Hc]; [lia|]. eapply N, Hc.
-  - destruct (Z_lt_le_dec 0 (l_idle adv)); [assumption|]. exfalso. eapply N, wit_idle; [lia | left; lia].
-  - destruct (Z_le_gt_dec (l_idle adv) (l_idle enf)); [assumption|]. exfalso. eapply N, wit_idle; [lia | right; lia].
+  - unfold adv_idle_fin.
+    destruct (Z.ltb_spec 0 (l_idle adv)); destruct (Z.ltb_spec (l_idle adv) noIdleNs); cbn [andb].
+    + destruct (Z_le_gt_dec (l_idle adv) (l_idle enf)); [assumption|]. exfalso. eapply N, wit_idle; [lia | right; lia].
+    + destruct (Z_le_gt_dec noIdleNs (l_idle enf)); [assumption|]. exfalso. eapply N, wit_idle; [lia | right; lia].
+    + destruct (Z_le_gt_dec noIdleNs (l_idle enf)); [assumption|]. exfalso. eapply N, wit_idle; [lia | left; lia].
+    + destruct (Z_le_gt_dec noIdleNs (l_idle enf)); [assumption|]. exfalso. eapply N, wit_idle; [lia | left; lia].
 Qed.
 
 Theorem no_error_iff adv enf : enf_sane enf ->
@@ -219,7 +235,8 @@ Proof. intros S. split; [apply safe_covers, S | apply covers_safe]. Qed.
 (** [coversb] decides [covers] *)
 Lemma coversb_spec adv enf : covers adv enf <-> forallb (fun b => b) (coversb adv enf) = true.
 Proof.
-  unfold covers, coversb. simpl. rewrite !andb_true_iff, !Z.leb_le, Z.ltb_lt. tauto.
+  unfold covers, coversb. simpl. rewrite !andb_true_iff, !Z.leb_le.
+  destruct (adv_idle_fin (l_idle adv)); rewrite Z.leb_le; tauto.
 Qed.
 
 (** * The enforced side in terms of Config and constants *)
@@ -265,7 +282,7 @@ Lemma covers_enforced_explicit a c :
   l_s_bidi a <= c_mis c /\ l_s_uni a <= c_mius c /\
   l_cid a <= protoMaxActiveConnectionIDs /\
   Z.min (l_dgram a) (Z.min (l_udp a) protoMaxPacketBufferSize - minPacketOverhead) <= (if c_dg c then wireMaxDatagramSize else 0) /\
-  (0 < l_idle a /\ l_idle a <= c_idle c).
+  (if adv_idle_fin (l_idle a) then l_idle a <= c_idle c else noIdleNs <= c_idle c).
 Proof. unfold covers, enforced, dgram_cap. simpl. tauto. Qed.
 
 (** * The plain client advertises what it enforces *)
@@ -275,44 +292,53 @@ Proof.
   intros H. unfold nsPerMs in H.
   assert (A : 1 <= c_idle c / 1000000) by (apply Z.div_le_lower_bound; lia).
   pose proof (Z.mul_div_le (c_idle c) 1000000 eq_refl) as B.
-  unfold covers, plain_advertised, enforced, dgram_cap, nsPerMs.
+  unfold covers, plain_advertised, enforced, dgram_cap, nsPerMs, adv_idle_fin.
   cbn [l_max_data l_sd_bl l_sd_br l_sd_uni l_s_bidi l_s_uni l_cid l_dgram l_idle l_udp].
   repeat split; try apply Z.le_refl.
   - apply Z.le_min_l.
-  - lia.
-  - lia.
+  - destruct (Z.ltb_spec 0 (c_idle c / 1000000 * 1000000)); [|lia].
+    destruct (Z.ltb_spec (c_idle c / 1000000 * 1000000) noIdleNs); cbn [andb]; lia.
 Qed.
 
 (** * The spec-driven client covers what its spec advertises, whatever the Config *)
 
+(* the only demand on the parameter list: stream counts within the protocol maximum (a larger value is
+   a TRANSPORT_PARAMETER_ERROR at the peer anyway). Whether and what idle timeout is advertised does
+   not matter any more: without one the client has none of its own. *)
 Definition spec_valid (a : limits) : Prop :=
-  0 < l_idle a /\ l_idle a / nsPerMs <= maxDurationMs /\
   l_s_bidi a <= protoMaxStreamCount /\ l_s_uni a <= protoMaxStreamCount.
 
 Lemma spec_covers a c : spec_valid a -> covers a (enforced_spec a c).
 Proof.
-  intros (Hi & Hg & Hb & Hu). unfold covers, enforced_spec, enforced, cover_config, dgram_cap.
+  intros (Hb & Hu). unfold covers, enforced_spec, enforced, cover_config, dgram_cap.
   cbn [l_max_data l_sd_bl l_sd_br l_sd_uni l_s_bidi l_s_uni l_cid l_dgram l_idle l_udp
        c_isw c_msw c_icw c_mcw c_mis c_mius c_dg c_idle].
-  rewrite (proj2 (Z.leb_le _ _) Hg).
   unfold protoMaxStreamCount in *.
   repeat split; try lia.
-  unfold protoMaxPacketBufferSize, minPacketOverhead, wireMaxDatagramSize.
-  destruct (c_dg c); cbn [orb]; [lia|].
-  destruct (Z.ltb_spec 0 (l_dgram a)); lia.
+  - unfold protoMaxPacketBufferSize, minPacketOverhead, wireMaxDatagramSize.
+    destruct (c_dg c); cbn [orb]; [lia|].
+    destruct (Z.ltb_spec 0 (l_dgram a)); lia.
+  - unfold adv_idle_fin.
+    destruct (Z.ltb_spec 0 (l_idle a)); cbn [andb]; [|lia].
+    destruct (Z.ltb_spec (l_idle a) noIdleNs);
+      destruct (Z.leb_spec (l_idle a / nsPerMs) (noIdleNs / nsPerMs)); try lia;
+      exfalso; assert (l_idle a / nsPerMs <= noIdleNs / nsPerMs) by (apply Z.div_le_mono; [reflexivity | lia]); lia.
 Qed.
 
 Lemma spec_client_ok a c : spec_valid a -> forall h code, play a (enforced_spec a c) h <> Err code.
 Proof. intros V. apply covers_safe, spec_covers, V. Qed.
 
-(* what remains: a spec that does not advertise max_idle_timeout tells its peer "no idle timeout"
-   (RFC 9000 10.1) while the client still gives up after Config.MaxIdleTimeout *)
-Lemma idle_not_advertised_refuted a c : l_idle a <= 0 -> 0 < c_idle c ->
-  play a (enforced_spec a c) [EvSilence (l_idle (enforced_spec a c)) 0 0] = Err IdleTimeout.
+(* Regression: the shape before this repair -- a list without max_idle_timeout, the client still giving
+   up after Config.MaxIdleTimeout ([enforced] alone, no "no idle timeout" value) -- was refuted *)
+Lemma idle_not_advertised_old_shape_refuted a (c : config) : l_idle a <= 0 -> 0 < c_idle c < noIdleNs ->
+  play a (enforced c) [EvSilence (c_idle c) 0 0] = Err IdleTimeout.
+Proof. intros H0 Hc. apply (wit_idle a (enforced c)); [exact Hc | left; exact H0]. Qed.
+
+(* now: whatever the Config, such a list is covered; the client's idle timeout is the peer's or none *)
+Lemma idle_not_advertised_ok a c : l_idle a <= 0 -> noIdleNs <= l_idle (enforced_spec a c).
 Proof.
-  intros H0 Hc. apply wit_idle; [|left; exact H0].
-  unfold enforced_spec, enforced, cover_config. cbn [l_idle c_idle].
-  destruct (l_idle a / nsPerMs <=? maxDurationMs); lia.
+  intros H0. unfold enforced_spec, enforced, cover_config. cbn [l_idle c_idle].
+  destruct (Z.ltb_spec 0 (l_idle a)); lia.
 Qed.
 
 (** * Transport parameter encoding: a peer parsing the bytes gets the list back *)
@@ -431,7 +457,7 @@ Proof.
   intros H k.
   assert (B : forall (t : state) k0 n, rw (bump t k0 n k) = rw (t k) /\ cr (bump t k0 n k) = cr (t k)).
   { intros t k0 n. unfold bump, upd. destruct (kind_eqb k0 k) eqn:E; [apply kind_eqb_eq in E; subst|]; simpl; auto. }
-  destruct x as [ty n | ty n | n | j | len | k0 w | | d pidle pto3]; cbn [client_step] in H.
+  destruct x as [ty n | ty n | n | j | ty m n | len | k0 w | | d pidle pto3]; cbn [client_step] in H.
   - right. split; [discriminate|].
     destruct ((ty =? 0) || fits_client s (cnt_kind ty) (implicit_open s ty)); cbn [negb orb] in H; [|inversion H; subst; auto].
     set (t := if ty =? 0 then s else bump s (cnt_kind ty) (implicit_open s ty)) in *.
@@ -444,6 +470,12 @@ Proof.
   - right. split; [discriminate|]. destruct (fits_client s (cnt_kind ty) n); cbn [negb orb] in H; inversion H; subst; auto; try apply B.
   - right. split; [discriminate|]. destruct (fits_client s KCID n); cbn [negb orb] in H; inversion H; subst; auto; try apply B.
   - right. split; [discriminate|]. destruct (fits_client s KCID (1 - j)); cbn [negb orb] in H; inversion H; subst; auto; try apply B.
+  - right. split; [discriminate|].
+    destruct (fits_client s (cnt_kind ty) m); cbn [negb orb] in H; [|inversion H; subst; auto].
+    destruct (lim_of (e_enf e) (sd_kind (if ty =? 1 then 1 else 2)) <? n); [inversion H; subst; auto|].
+    destruct (fits_client s KConn (m * n)); cbn [negb orb] in H; inversion H; subst; auto.
+    destruct (B (bump s (cnt_kind ty) m) KConn (m * n)) as [B1 B2]. destruct (B s (cnt_kind ty) m) as [B3 B4].
+    split; congruence.
   - right. split; [discriminate|].
     destruct (l_dgram (e_enf e) =? 0); [inversion H; subst; auto|].
     destruct (len >? l_dgram (e_enf e)); inversion H; subst; auto.
@@ -479,7 +511,7 @@ Proof.
     destruct IH as [-> ->].
     destruct (client_step_windows _ _ _ _ _ C k) as [(w & -> & Hr & Hc) | (N & Hr & Hc)].
     + rewrite kind_eqb_refl. simpl in G. apply Z.ltb_lt in G. specialize (I k). split; lia.
-    + destruct x as [? ? | ? ? | ? | ? | ? | k0 w | | ? ? ?]; auto.
+    + destruct x as [? ? | ? ? | ? | ? | ? ? ? | ? | k0 w | | ? ? ?]; auto.
       destruct (kind_eqb k0 k) eqn:E; [|auto]. apply kind_eqb_eq in E. subst. exfalso. exact (N w eq_refl).
 Qed.
 
@@ -512,6 +544,96 @@ Proof.
     destruct (client_step_monotone _ _ _ _ _ C k) as [M1 M2].
     destruct (IH s1 s' I1 R k) as (A & B & D). lia.
 Qed.
+
+(** * DATAGRAM frames: both encodings are judged by their total size; the sending side *)
+
+Lemma dgram_enc_client e s hl p :
+  client_step e s (EvDgramEnc hl p) =
+    (s, if l_dgram (e_enf e) =? 0 then Some FrameEncodingError
+        else if l_dgram (e_enf e) <? dgram_frame_size hl p then Some ProtocolViolation else None).
+Proof.
+  unfold EvDgramEnc. cbn [client_step]. destruct (l_dgram (e_enf e) =? 0); [reflexivity|].
+  rewrite Z.gtb_ltb. destruct (l_dgram (e_enf e) <? dgram_frame_size hl p); reflexivity.
+Qed.
+
+Theorem dgram_accept_iff e s hl p :
+  snd (client_step e s (EvDgramEnc hl p)) = None <->
+  l_dgram (e_enf e) <> 0 /\ dgram_frame_size hl p <= l_dgram (e_enf e).
+Proof.
+  rewrite dgram_enc_client. cbn [snd].
+  destruct (Z.eqb_spec (l_dgram (e_enf e)) 0) as [E|E].
+  - split; [discriminate | intros [H _]; contradiction].
+  - destruct (Z.ltb_spec (l_dgram (e_enf e)) (dgram_frame_size hl p)) as [L|L]; split; intros Q; try discriminate; auto.
+    destruct Q. lia.
+Qed.
+
+Lemma dgram_enc_peer_ok e s hl p :
+  peer_ok e s (EvDgramEnc hl p) = (1 <=? dgram_frame_size hl p) && (dgram_frame_size hl p <=? dgram_cap (e_adv e)).
+Proof. reflexivity. Qed.
+
+Lemma vlen_le_8 v : vlen v <= 8.
+Proof. unfold vlen. repeat match goal with |- context [if ?c then _ else _] => destruct c end; lia. Qed.
+
+Lemma vlen_ge_1 v : 0 <= v <= maxVarInt8 -> 1 <= vlen v.
+Proof. intros H. destruct (vlen_cases v H) as [X|[X|[X|X]]]; lia. Qed.
+
+Lemma vlen_mono a b : 0 <= a <= b -> b <= maxVarInt8 -> vlen a <= vlen b.
+Proof.
+  unfold vlen, maxVarInt1, maxVarInt2, maxVarInt4, maxVarInt8. intros H Hb.
+  destruct (Z.leb_spec a 63), (Z.leb_spec b 63), (Z.leb_spec a 16383), (Z.leb_spec b 16383),
+    (Z.leb_spec a 1073741823), (Z.leb_spec b 1073741823), (Z.leb_spec a 4611686018427387903),
+    (Z.leb_spec b 4611686018427387903); lia.
+Qed.
+
+(* the loop ends on a length that fits (or 0) ... *)
+Lemma shrink_loop_fits space : forall fuel d, 0 <= d <= space -> 7 <= space - d + Z.of_nat fuel ->
+  let r := shrink_loop fuel space d in 0 <= r <= d /\ (r = 0 \/ vlen r - 1 + r <= space).
+Proof.
+  induction fuel as [|f IH]; intros d Hd Hf; cbn [shrink_loop].
+  - split; [lia|]. right. pose proof (vlen_le_8 d). lia.
+  - destruct (Z.ltb_spec 0 d); cbn [andb].
+    + destruct (Z.ltb_spec space (vlen d - 1 + d)).
+      * destruct (IH (d - 1)) as (A & B); [lia | lia |]. split; [lia | exact B].
+      * split; [lia | right; lia].
+    + split; [lia | left; lia].
+Qed.
+
+(* ... and on the largest such length *)
+Lemma shrink_loop_max space p : 0 <= p -> vlen p - 1 + p <= space -> space <= maxVarInt8 ->
+  forall fuel d, p <= d <= space -> p <= shrink_loop fuel space d.
+Proof.
+  intros Hp Hfit Hs. induction fuel as [|f IH]; intros d Hd; cbn [shrink_loop]; [lia|].
+  destruct (Z.ltb_spec 0 d); cbn [andb]; [|lia].
+  destruct (Z.ltb_spec space (vlen d - 1 + d)); [|lia].
+  apply IH. assert (p <> d) by (intros ->; lia). lia.
+Qed.
+
+(* SendDatagram accepts a payload iff the frame it makes (type 0x31, with length field) is within the
+   peer's max_datagram_frame_size (and the payload within the MTU estimate) *)
+Theorem send_datagram_iff mdfs mtu p : 0 <= p -> 2 <= mdfs <= maxVarInt8 ->
+  send_datagram_ok mdfs mtu p = true <-> (dgram_frame_size true p <= mdfs /\ p <= mtu).
+Proof.
+  intros Hp Hm. unfold send_datagram_ok, send_datagram_max, dgram_max_data_len, dgram_frame_size.
+  rewrite (proj2 (Z.ltb_lt 0 mdfs)) by lia. cbn [andb]. rewrite Z.leb_le.
+  rewrite (proj2 (Z.ltb_ge mdfs 2)) by lia.
+  unfold shrink_for_length_field.
+  destruct (shrink_loop_fits (mdfs - 2) 8 (mdfs - 2)) as ((R0 & R1) & R2); [lia | simpl; lia |].
+  split; intros H0.
+  - assert (Hle : p <= shrink_loop 8 (mdfs - 2) (mdfs - 2)) by lia.
+    split; [|lia].
+    destruct R2 as [R2|R2]; [assert (p = 0) by lia; subst; unfold vlen, maxVarInt1; simpl; lia|].
+    pose proof (vlen_mono p (shrink_loop 8 (mdfs - 2) (mdfs - 2))). lia.
+  - destruct H0 as [H1 H2]. apply Z.min_glb; [|exact H2].
+    destruct (Z_le_gt_dec p maxVarInt8) as [Q|Q].
+    + pose proof (vlen_ge_1 p). apply shrink_loop_max; lia.
+    + exfalso. unfold vlen in H1. unfold maxVarInt1, maxVarInt2, maxVarInt4, maxVarInt8 in *.
+      destruct (Z.leb_spec p 63), (Z.leb_spec p 16383), (Z.leb_spec p 1073741823), (Z.leb_spec p 4611686018427387903); lia.
+Qed.
+
+(* the corner the theorem excludes: a peer advertising max_datagram_frame_size = 1 (room for the type
+   byte only) is sent the empty datagram as a 2-byte frame (type 0x31 + length 0) *)
+Lemma send_datagram_mdfs1_corner : send_datagram_ok 1 1200 0 = true /\ dgram_frame_size true 0 = 2.
+Proof. split; reflexivity. Qed.
 
 (** * Every dial derives its own list from the spec's (untouched) list *)
 
